@@ -253,7 +253,7 @@ func runCase(c *tcase, in inst, sh shape, caseNo int, operand string) (mm *misma
 				if e.A == "appends" {
 					s, err = o.appendScalar(e.X, how+si)
 				} else {
-					s, err = o.appendVector(e.W)
+					s, err = o.appendVector(e.W, how+si)
 				}
 				if err == nil {
 					for j, oj := range itObj {
@@ -772,7 +772,7 @@ func oneOp(rng *rand.Rand, c cont, its []iter, e *rev, nmax int) (cont, bool) {
 		}
 		e.E = "appendv"
 		e.W = randVec(rng, 1+rng.Intn(nmax-d), 2)
-		s, _ := c.appendVector(e.W)
+		s, _ := c.appendVector(e.W, rng.Intn(3))
 		kill()
 		return s, false
 	case x < 67: // arithmetic, kept small
